@@ -54,6 +54,11 @@ def run(scn):
         return run_far(scn)
     spec = scn["spec"] if scn["kind"] == "spec" else A.to_spec(scn["config"])
     ctx = execute(spec, [C19Groundwater()], pid=PID, timeout=120)
+    ab = ctx.aborted
+    if ab and spec.get("gw") is not None and any(k in (ab.get("exc_origin") or "") + " ".join(ab.get("exc_chain") or []) for k in
+                                                 ("check_groundwater_table", "read_groundwater_table", "capillary_rise", "groundwater_inflow")):
+        ctx.violate("groundwater-configuration-runs", ab.get("step"), observed={"exc": ab.get("exc_type"), "origin": ab.get("exc_origin"), "msg": (ab.get("exc_msg") or "")[:160]},
+                    expected="the daily water-table depth follows the observations (no exception from the groundwater code)", exc_origin=ab.get("exc_origin"))
     facts = scenario_facts(spec)
     for v in ctx.violations:
         for k, val in facts.items():
